@@ -239,6 +239,23 @@ def h_add(ctx, B):
     ctx.prove(E.eq(r.as_integer, (d1 << b2) | d2), "concatenation wrong", key="add/value")
     _unchanged(ctx, f1, b1, d1, "add-left")
     _unchanged(ctx, f2, b2, d2, "add-right")
+    # the sum is a frame like any other: a bit cleared and a slice written on it land where they should
+    tot = b1 + b2
+    i = ctx.fresh("wi", 0, 2 * half - 1)
+    ctx.assume(E.lt(i, tot))
+    base = (d1 << b2) | d2
+
+    def clr():
+        r[i] = False
+    stc, rc = call(clr)
+    ctx.prove(stc == "ok" and E.eq(r.as_integer, base & ~(1 << i)) and E.eq(r.__len__(), tot),
+              "clearing a bit of a concatenated frame changed other bits", key="add/write-bit")
+
+    def sl():
+        r[i:i] = 1
+    sts, rs = call(sl)
+    ctx.prove(sts == "ok" and E.eq(r.as_integer, base | (1 << i)) and E.eq(r.__len__(), tot),
+              "a slice write on a concatenated frame changed other bits", key="add/write-slice")
     # augmented concatenation: `x += g` rebinds x to the longer frame; the object x named before (still
     # referenced elsewhere) keeps its length and contents - a frame's length never changes
     alias = f1
